@@ -242,7 +242,8 @@ def pending_bookkeeping(ctx):
 
 def _must_pass(body, region, bb):
     """every path entering `region` and leaving it passes block bb: removing bb disconnects region entry from region exits"""
-    entries = {e.dst for e in body.edges if e.dst in region and e.src not in region}
+    live = body.reachable_blocks()
+    entries = {e.dst for e in body.edges if e.dst in region and e.src not in region and e.src in live}
     exits = {e.dst for e in body.edges if e.src in region and e.dst not in region}
     for en in entries:
         if en == bb:
